@@ -14,13 +14,17 @@ from .common import fq, close
 
 PROP = "C11"
 INFO = dict(
-    technique="Lean 4 proof (the transcribed mean / covariance update formulas and ipca's mean, centring and "
-              "mean-shift pseudo-sample reproduce the statistics of the concatenated data by induction over any list "
-              "of increments; ipca's R-matrix construction under QR/SVD contracts over Mathlib matrices, with no "
-              "full-rank hypothesis on the residual, as an invariant over every chain of increments; the forgetting "
-              "factor, the eps discard, both precision storages and the object-level models as coded) + "
-              "model/implementation correspondence on every composition of small sample sequences + obligations over "
-              "tables regenerated from the live signatures / call sites / dispatch on every run",
+    technique="Lean 4 proof (the update formulas of `_increment_multivariate_gaussian_mean/_cov`, the four "
+              "`_increment_*_precision` builders with their loops, `GMRFVectorModel._increment` / `increment`, "
+              "`GMRFModel.increment`, `menpo.math.decomposition.ipca` and `PCAVectorModel.increment` / "
+              "`PCAModel.increment` are TRANSLATED from the source text of the working tree on every run into Lean and "
+              "proved equal, for all arguments, to the definitions the theorems are about; those reproduce the "
+              "statistics of the concatenated data by induction over any list of increments; ipca's R-matrix construction "
+              "under QR/SVD contracts over Mathlib matrices, with no full-rank hypothesis on the residual, as an invariant "
+              "over every chain of increments; the forgetting factor, the discard threshold, both precision storages "
+              "and the object-level models as coded) + model/implementation correspondence on every composition of small "
+              "sample sequences and on every storage dtype pair + obligations over tables regenerated from the live "
+              "signatures / call sites / dispatch on every run",
     level_text="Theorems over an executable rational model: `_increment_multivariate_gaussian_mean/_cov` give mean and "
                "np.cov (bias 0 and 1) of the concatenated data; an incremental GMRF after any list of increments holds "
                "the count, mean and every per-edge / per-vertex covariance of the batch model, for every graph "
@@ -33,8 +37,10 @@ INFO = dict(
                "results of sqrt / QR / SVD within their contracts and any rank of the residual (no full-rank "
                "hypothesis: [U_a; B~] need not have orthonormal rows) the rows of U belonging to non-zero singular "
                "values are orthonormal, and every state reachable by pca + any chain of increments (eps discard "
-               "modelled with its threshold, hypothesis: no eigenvalue in (0, eps], shown to be exactly the weakest) is "
-               "an eigen-decomposition of the batch scatter with rank-many components; two reachable states of the "
+               "modelled with its threshold - since /repo db6ef6e max(eps, max(R.shape) precision max l), a threshold of "
+               "its own per step, at least eps - hypothesis: no eigenvalue in (0, threshold], shown to be exactly the weakest) is "
+               "an eigen-decomposition of the batch scatter with rank-many components, the rank being the exact rank the "
+               "driver computes by Gaussian elimination (rankExact_eq_rank: it IS Matrix.rank); two reachable states of the "
                "same data span the same principal subspace.  The step ipca computes for a forgetting factor f is "
                "modelled as coded (f^2 on the old scatter, f on mean / pseudo-sample / normaliser), reduces to the "
                "no-forgetting step for f = 1 and equals the f-weighted scatter about the f-weighted mean minus "
@@ -46,7 +52,41 @@ INFO = dict(
                "mean / covariance / rank / both precisions / forgetting runs / kept eigenvalues against the Lean "
                "driver; by `decide` obligations over the regenerated defaults (eps, f), the ipca call site of "
                "increment and the GMRF routine dispatch; an independent oracle (incremental vs batch model of the same "
-               "class, and vs the exact covariance) decides the property.",
+               "class, and vs the exact covariance) decides the property.  TRANSLATOR TIE (harness/trans_c11.py, "
+               "harness/py2lean2.py + py2lean2numpy.py): fourteen functions are translated from the source text of the "
+               "current tree into Generated/C11Src.lean on every run (fifteen with as_matrix), over a numpy vocabulary (1-D / 2-D arrays with "
+               "shapes over Q, broadcasting, .T, .dot, vstack, hstack, slices, fancy column indexing, sum/mean(axis=0), "
+               "slice stores, for loops as folds, a raising call inside a loop as an exit flag; np.sqrt / qr / svd / the "
+               "block inverse / the machine epsilon of the operands as parameters `lib`, `inv`), and GenProps/C11Src.lean "
+               "proves each equal for ALL arguments to a hand-written definition `Src.*`: "
+               "_increment_multivariate_gaussian_mean, _increment_multivariate_gaussian_cov (bias branch, raise), "
+               "_increment_dense_precision, _increment_dense_diagonal_precision, _increment_sparse_precision, "
+               "_increment_sparse_diagonal_precision (edge / vertex loops, which columns and mean entries make a block, "
+               "the update call, the block inverse, the stores; sparse: the triplets, argsort, the indptr loop, "
+               "bsr_matrix), GMRFVectorModel._data_to_matrix, _increment (dispatch on n_edges == 0 and sparse, argument "
+               "order, mean and count updated AFTER the covariances), GMRFVectorModel.increment, GMRFModel.increment, "
+               "menpo.math.decomposition.ipca (the whole plumbing: singular values from the count before it is "
+               "multiplied by f, branch on centre / the mean, centring, the pseudo-sample stacked LAST, projection, "
+               "QR of PB^T, the four blocks of R in their places, SVD, eigenvalues, the discard threshold "
+               "max(eps, max(R.shape) precision max l), Vt [U_a; B~] cut to len(l) rows, the returned triple), "
+               "PCAVectorModel._data_to_matrix, PCAVectorModel.increment (arguments handed to ipca, count update, "
+               "active-components reset), PCAModel.increment, menpo.math.as_matrix (WITH storage dtypes: the matrix "
+               "allocated in the template's dtype, the can_cast test, astype(promote_types), the row assignment that "
+               "casts; theorem: no sample is ever truncated, whatever the dtypes and their order, and an iterator that "
+               "ends early raises).  The property theorems are then proved about `Src.*` and "
+               "restated about the translated definitions: the translated cov formula gives np.cov of the "
+               "concatenated data (gen_cov_update_exact); a translated incremental GMRF fed any list of data matrices "
+               "never raises and holds the batch count / mean / block covariances, dense storage also the batch "
+               "precision, independently of the chunking (gen_gmrf_refines_batch, gen_gmrf_chunking_independent, "
+               "gen_gmrf_precision_eq_batch), object level included; the R matrix the translated ipca builds IS the "
+               "block matrix of the Mathlib-level theorems (toMat_tailR), so one translated ipca call turns a "
+               "decomposition of the scatter of the data seen so far into one of the scatter of all the data, with "
+               "positive eigenvalues, the batch mean and orthonormal rows, for any qr / svd / sqrt results within "
+               "their contracts and any rank of the residual (gen_ipca_step_represents, non-vacuity by a kernel-"
+               "evaluated instance); hence every state reachable by a batch build and any chain of translated "
+               "PCAVectorModel.increment calls holds the batch count, mean and an orthonormal eigen-decomposition of "
+               "the batch scatter, and two such states of the same data span the same principal subspace "
+               "(src_pca_reach_represents, src_pca_reach_unique).",
     level_note="Trusted: Lean kernel; axioms propext/Classical.choice/Quot.sound; Python harness (incl. the table "
                "extraction by inspect/ast and by wrapping the module-level GMRF routines); driver parser.  "
                "Contract parameters (not verified; checked numerically on every case through the certificate "
@@ -59,16 +99,21 @@ INFO = dict(
          "directly, forgetting factors; GMRF: graph, mode, storage, bias, vector or PointCloud backed, input "
          "dtype/container); distinct = distinct (data, split, configuration); non-trivial = at least one "
          "increment and data of rank >= 2",
-    partial=["the exact rank computed by the driver (Gaussian elimination, `rankExact`) is tied to the number of "
-             "components by correspondence; its equality with Mathlib's `Matrix.rank` is not proved",
+    partial=["block-sparse storage of the translated builders: the triplets, the sort, the indptr loop and the "
+             "bsr_matrix call are translated and proved equal to `Src.assemble`, the statistics theorems cover sparse "
+             "storage too, but that `Src.assemble` denotes the sum of the triplets (= `precisionOfSparse`) is tied by "
+             "the correspondence only (the theorem of that shape is C12's `bsr_sorted_denotes`, for the batch builders)",
+             "PCAVectorModel.increment: the setter of n_active_components (C10's subject) is taken at an integer in "
+             "range, where it stores the value",
              "forgetting factors other than 1 are outside the property: modelled as coded and tied by "
              "correspondence only (no oracle)",
              "n_components truncation of the block inverses (truncated SVD) belongs to C12"],
     assumptions=["numpy/LAPACK qr, svd, inv, eigh accurate to 1e-12 relative on matrices with condition number <= 1e6"],
     design_ref="DESIGN.md section 6, C11; section 7 item 9")
-IMPORTS = ["MenpoModel.Props.C11"]
+IMPORTS = ["MenpoModel.Props.C11", "MenpoModel.Props.C11Src", "MenpoModel.Props.C11SrcPca"]
 GEN_IMPORT = "MenpoModel.GenProps.C11"
 GEN_TARGETS = ["MenpoModel.Generated.C11Live", "MenpoModel.GenProps.C11"]
+SRC_IMPORT = "MenpoModel.GenProps.C11Src"
 THEOREMS = [
     "MenpoModel.C11.mean_update_exact",
     "MenpoModel.C11.cov_update_exact",
@@ -122,7 +167,50 @@ THEOREMS = [
     "MenpoModel.C11.ipca_reach_eigenvalues_unique",
     "MenpoModel.C11.kept_represents_iff",
     "MenpoModel.C11.ipca_eps_gap_needed",
+    "MenpoModel.C11.rankAux_eq",
+    "MenpoModel.C11.rankExact_eq_rank",
+    "MenpoModel.C11.ipca_reach_card_eq_rankExact",
+    # about the definitions the TRANSLATED sources are proved equal to (Core/C11Src.lean)
+    "MenpoModel.C11.src_incMean_eq",
+    "MenpoModel.C11.src_incCov_some",
+    "MenpoModel.C11.src_covNew_eq",
+    "MenpoModel.C11.srcFeat_mean",
+    "MenpoModel.C11.srcFeat_eq_feat",
+    "MenpoModel.C11.storeDense_f",
+    "MenpoModel.C11.src_incrementInner_dense",
+    "MenpoModel.C11.src_incrementInner_sparse",
+    "MenpoModel.C11.src_gmrf_refines_batch",
+    "MenpoModel.C11.src_gmrf_precision_eq_batch",
+    "MenpoModel.C11.src_gmrf_chunking_independent",
+    "MenpoModel.C11.srcRunObj_eq",
+    "MenpoModel.C11.src_gmrfObj_refines_batch",
+    "MenpoModel.C11.toMat_tailR",
+    "MenpoModel.C11.tail_full_represents",
+    "MenpoModel.C11.tail_rows_orthonormal",
+    "MenpoModel.C11.filterGt_prefix",
+    "MenpoModel.C11.src_ipcaTail_represents",
+    "MenpoModel.C11.src_ipca_plumbing",
+    "MenpoModel.C11.src_ipca_eq_tail",
+    "MenpoModel.C11.src_ipca_step_represents",
+    "MenpoModel.C11.src_pcaIncrement_spec",
+    "MenpoModel.C11.src_pcaIncrementObj_eq",
+    "MenpoModel.C11.src_pcaIncrement_preserves",
+    "MenpoModel.C11.src_pca_reach_represents",
+    "MenpoModel.C11.src_pca_reach_unique",
+    "MenpoModel.C11.asMatrixStep_spec",
+    "MenpoModel.C11.src_asMatrix_exact",
+    "MenpoModel.C11.src_asMatrix_short",
+    "MenpoModel.C11.src_asMatrix_repr",
 ]
+# obligations over the TRANSLATED sources (Generated/C11Src.lean, harness/trans_c11.py): translated = Src definition
+SRC_THEOREMS = ["MenpoModel.GenProps.C11Src." + n for n in (
+    "genIncMean_eq", "genIncCov_eq", "genIncDenseDiag_eq", "genIncDense_eq", "genIncSparseDiag_eq", "genIncSparse_eq",
+    "genDataToMatrix_eq", "genPcaDataToMatrix_eq", "genIncrementInner_eq", "genIncrement_eq", "genIncrementObj_eq",
+    "genIpca_eq", "genPcaIncrement_eq", "genPcaIncrementObj_eq", "ipcaDefaultEps_eq",
+    # the property theorems restated about the translated definitions themselves
+    "gen_cov_update_exact", "gen_cov_bad_bias", "genRun_eq", "gen_gmrf_refines_batch", "gen_gmrf_chunking_independent",
+    "gen_gmrf_precision_eq_batch", "gen_ipca_step_represents", "gen_pcaIncrement_spec",
+    "genAsMatrix_eq", "gen_asMatrix_exact")]
 GEN_THEOREMS = [
     "MenpoModel.GenProps.C11.eps_ok",
     "MenpoModel.GenProps.C11.eps_nonneg",
@@ -255,6 +343,25 @@ def generated(ctx):
     return ok
 
 
+def generated_src(ctx):
+    """the anchored functions translated from the source text of the current tree (harness/trans_c11.py) and the
+    obligations `translated = Src definition`; a source the vocabulary has no words for becomes a stub whose
+    obligation cannot be proved: either way a broken obligation, never an infrastructure error"""
+    from . import trans_c11
+    files, reasons = trans_c11.generated_files()
+    if reasons:
+        ctx.notes["untranslatable"] = reasons
+    ok = common.build_generated(ctx, files, trans_c11.GEN_TARGETS, len(SRC_THEOREMS))
+    if not ok and ctx.broken_obligations:
+        errs = " ".join(ctx.broken_obligations[-1].get("errors", []))
+        named = [n.split(".")[-1] for n in SRC_THEOREMS if n.split(".")[-1] in ctx.broken_obligations[-1].get("output_tail", "")
+                 or n.split(".")[-1] in errs]
+        ctx.broken_obligations[-1]["obligation"] = ("MenpoModel.GenProps.C11Src: translated source = Src definition (%s)" %
+                                                    (", ".join(named) or "see errors"))
+        ctx.broken_obligations[-1]["observed"] = {"untranslatable": reasons}
+    return ok
+
+
 
 # ------------------------------------------------------------------------------- generators
 
@@ -327,7 +434,7 @@ def exact_cov(X, centred, ddof=1):
     return (np.array([float(v) for v in m]), np.array([[float(v) for v in row] for row in C]), exact_rank(cx))
 
 
-def pca_data_ok(X, split, centred):
+def pca_data_ok(X, split, centred, ratio=1e-3):
     """conditioning bounded on the input: on every prefix the non-zero part of the spectrum of the exact covariance
     is far from the code's thresholds (eps = 1e-10) and from zero"""
     import numpy as np
@@ -338,7 +445,7 @@ def pca_data_ok(X, split, centred):
         if rank == 0:
             return False
         ev = np.sort(np.linalg.eigvalsh(C))[::-1]
-        if ev[rank - 1] < 1e-3 * max(ev[0], 1.0) or ev[rank - 1] < 1e-2:
+        if ev[rank - 1] < ratio * max(ev[0], 1.0) or ev[rank - 1] < 1e-2:
             return False
     return True
 
@@ -385,7 +492,7 @@ def block_columns(edges, mode, k, nv):
     return out
 
 
-def gmrf_data_ok(X, split, edges, mode, k, nv, bias):
+def gmrf_data_ok(X, split, edges, mode, k, nv, bias, cond=None):
     import numpy as np
     lo = 0
     for idx, c in enumerate(split):
@@ -394,18 +501,54 @@ def gmrf_data_ok(X, split, edges, mode, k, nv, bias):
         for kind, ca, cb in block_columns(edges, mode, k, nv):
             D = X[:lo][:, ca] if cb is None else X[:lo][:, ca] - X[:lo][:, cb]
             C = np.atleast_2d(np.cov(D, rowvar=0, bias=bias))
-            if not np.all(np.isfinite(C)) or np.linalg.cond(C) > (1e4 if last else 1e6):
+            if not np.all(np.isfinite(C)) or np.linalg.cond(C) > (cond or (1e4 if last else 1e6)):
                 return False
     return True
 
 
 # ------------------------------------------------------------------------------- implementation runners
 
-def as_pointclouds(M, k, int_first=False):
-    """int_first: the first sample is stored with an integer dtype (PointCloud keeps the dtype it is given)"""
+# storage dtypes of a chunk of samples: numpy dtype names, and `list-int` = a list of 1-D int64 arrays (vector models)
+DTYPES = ("float64", "int64", "int32", "float32", "list-int")
+TOL32 = 1e-4          # DESIGN section 3: relative tolerance for single precision computations
+
+
+def np_dtype(dt):
+    import numpy as np
+    return {"float64": np.float64, "int64": np.int64, "int32": np.int32, "float32": np.float32,
+            "list-int": np.int64, None: np.float64}[dt]
+
+
+def cast_chunk(c, dt):
+    """the chunk (a float64 matrix holding values the dtype can store exactly) in the storage dtype `dt`"""
+    import numpy as np
+    if dt is None or dt == "float64":
+        return c.copy()
+    if dt == "list-int":
+        return [np.array(r, dtype=np.int64) for r in c]
+    return c.astype(np_dtype(dt))
+
+
+def stack_cast(chunks, dtypes):
+    """`np.vstack` of the chunks as they are handed to the incremental model (numpy's promotion decides the dtype)"""
+    import numpy as np
+    return np.vstack([np.asarray(cast_chunk(c, dt)) for c, dt in zip(chunks, dtypes)])
+
+
+def has_single(dtypes):
+    return bool(dtypes) and any(dt == "float32" for dt in dtypes)
+
+
+def case_tol(dtypes, tol=TOL):
+    return max(tol, TOL32) if has_single(dtypes) else tol
+
+
+def as_pointclouds(M, k, int_first=False, dtype=None):
+    """int_first: the first sample is stored with an integer dtype (PointCloud keeps the dtype it is given);
+    dtype: every sample is stored with that dtype"""
     import numpy as np
     from menpo.shape import PointCloud
-    out = [PointCloud(np.array(r, dtype=float).reshape(-1, k)) for r in M]
+    out = [PointCloud(np.array(r, dtype=float).astype(np_dtype(dtype)).reshape(-1, k)) for r in M]
     if int_first:
         out[0] = PointCloud(np.array(M[0]).astype(np.int64).reshape(-1, k))
     return out
@@ -432,42 +575,56 @@ def pca_state(m):
                 l=np.array(m.eigenvalues, dtype=float))
 
 
-def run_pca_impl(chunks, centred, backing, factors=None):
+def run_pca_impl(chunks, centred, backing, factors=None, dtypes=None):
     """state of the incrementally fed model and of the batch model: dicts n, mean, U, l.
-    backing: vector | pointcloud | pointcloud-iter (samples handed over as an iterator with n_samples)"""
+    backing: vector | pointcloud | pointcloud-iter (samples handed over as an iterator with n_samples);
+    dtypes: storage dtype of every chunk (first = initial batch), default float64; the batch model is built from the
+    `np.vstack` of the chunks as handed over (vector) / from all the point clouds as handed over (object level)"""
     import numpy as np
     from menpo.model import PCAVectorModel, PCAModel
     X = np.vstack(chunks)
     fs = factors or [None] * (len(chunks) - 1)
+    dts = list(dtypes) if dtypes else [None] * len(chunks)
 
     def kw(f):
         return {} if f is None else {"forgetting_factor": f}
 
-    if backing == "vector":
-        inc = PCAVectorModel(chunks[0].copy(), centre=centred)
-        for c, f in zip(chunks[1:], fs):
-            inc.increment(c.copy(), **kw(f))
-        bat = PCAVectorModel(X.copy(), centre=centred)
+    if backing in ("vector", "vector-trimmed"):
+        first = cast_chunk(chunks[0], dts[0])
+        inc = PCAVectorModel(np.asarray(first) if dts[0] == "list-int" else first, centre=centred)
+        if backing == "vector-trimmed" and inc.n_components >= 2:
+            # a previous life: the user lowered the number of active components before feeding more data (increment
+            # then takes the branch that leaves n_active_components alone); the stored decomposition is read back in
+            # full after the increments
+            inc.n_active_components = inc.n_components - 1
+        for c, f, dt in zip(chunks[1:], fs, dts[1:]):
+            inc.increment(cast_chunk(c, dt), **kw(f))
+        if backing == "vector-trimmed":
+            inc.n_active_components = inc.n_components
+        bat = PCAVectorModel(stack_cast(chunks, dts) if dtypes else X.copy(), centre=centred)
     else:
-        inc = PCAModel(as_pointclouds(chunks[0], 2), centre=centred)
-        for c, f in zip(chunks[1:], fs):
-            pcs = as_pointclouds(c, 2)
+        inc = PCAModel(as_pointclouds(chunks[0], 2, dtype=dts[0]), centre=centred)
+        allpcs = as_pointclouds(chunks[0], 2, dtype=dts[0])
+        for c, f, dt in zip(chunks[1:], fs, dts[1:]):
+            pcs = as_pointclouds(c, 2, dtype=dt)
+            allpcs += as_pointclouds(c, 2, dtype=dt)
             if backing == "pointcloud-iter":
                 inc.increment(iter(pcs), n_samples=len(pcs), **kw(f))
             else:
                 inc.increment(pcs, **kw(f))
-        bat = PCAModel(as_pointclouds(X, 2), centre=centred)
+        bat = PCAModel(allpcs if dtypes else as_pointclouds(X, 2), centre=centred)
     return pca_state(inc), pca_state(bat)
 
 
-def run_ipca_direct(chunks, centred, centre_arg):
+def run_ipca_direct(chunks, centred, centre_arg, dtypes=None):
     """menpo.math.pca on the first chunk, then menpo.math.ipca itself for every further chunk"""
     import numpy as np
     from menpo.math import pca, ipca
-    U, l, m = pca(chunks[0].copy(), centre=centred)
+    dts = [(None if dt == "list-int" else dt) for dt in dtypes] if dtypes else [None] * len(chunks)
+    U, l, m = pca(cast_chunk(chunks[0], dts[0]), centre=centred)
     n = chunks[0].shape[0]
-    for c in chunks[1:]:
-        U, l, m = ipca(c.copy(), U, l, n, m_a=m, centre=centre_arg)
+    for c, dt in zip(chunks[1:], dts[1:]):
+        U, l, m = ipca(cast_chunk(c, dt), U, l, n, m_a=m, centre=centre_arg)
         n += c.shape[0]
     return dict(n=n, mean=np.array(m, dtype=float), U=np.array(U, dtype=float), l=np.array(l, dtype=float))
 
@@ -497,6 +654,25 @@ def run_gmrf_impl(chunks, kind, edges, nv, k, mode, sparse, bias, backing, varia
         return c.copy()
 
     kw = dict(mode=mode, sparse=sparse, bias=bias, dtype=np.float64)
+    pair = variant_dtypes(variant)
+    if pair is not None:
+        # storage dtypes: `dt0>dt1` = initial batch stored as dt0, every increment as dt1; the batch model gets the
+        # samples exactly as the incremental one got them (stacked / listed)
+        dts = [pair[0]] + [pair[1]] * (len(chunks) - 1)
+        if backing == "vector":
+            first = cast_chunk(chunks[0], dts[0])
+            inc = GMRFVectorModel(first, build_graph(kind, edges, nv), incremental=True, **kw)
+            for c, dt in zip(chunks[1:], dts[1:]):
+                inc.increment(cast_chunk(c, dt))
+            bat = GMRFVectorModel(stack_cast(chunks, dts), build_graph(kind, edges, nv), incremental=False, **kw)
+        else:
+            inc = GMRFModel(as_pointclouds(chunks[0], k, dtype=dts[0]), build_graph(kind, edges, nv), incremental=True, **kw)
+            allpcs = as_pointclouds(chunks[0], k, dtype=dts[0])
+            for c, dt in zip(chunks[1:], dts[1:]):
+                inc.increment(as_pointclouds(c, k, dtype=dt))
+                allpcs += as_pointclouds(c, k, dtype=dt)
+            bat = GMRFModel(allpcs, build_graph(kind, edges, nv), incremental=False, **kw)
+        return state(inc), state(bat)
     if backing == "vector":
         inc = GMRFVectorModel(arg(chunks[0]), build_graph(kind, edges, nv), incremental=True, **kw)
         for c in chunks[1:]:
@@ -515,6 +691,14 @@ def run_gmrf_impl(chunks, kind, edges, nv, k, mode, sparse, bias, backing, varia
     return state(inc), state(bat)
 
 
+def variant_dtypes(variant):
+    """`dt0>dt1` -> (dt0, dt1), any other variant -> None"""
+    if isinstance(variant, str) and ">" in variant:
+        a, b = variant.split(">")
+        return a, b
+    return None
+
+
 # ------------------------------------------------------------------------------- oracle
 
 def arr_close(a, b, tol=TOL):
@@ -530,39 +714,42 @@ def arr_close(a, b, tol=TOL):
     return bool(np.abs(a - b).max() <= tol * (1.0 + scale))
 
 
-def pca_python(chunks, centred, backing):
-    return ("import numpy as np\nfrom menpo.model import PCAVectorModel\nchunks = %r\n"
-            "m = PCAVectorModel(np.array(chunks[0]), centre=%r)\n"
-            "for c in chunks[1:]:\n    m.increment(np.array(c))\n"
-            "b = PCAVectorModel(np.vstack([np.array(c) for c in chunks]), centre=%r)\n"
+def pca_python(chunks, centred, backing, dtypes=None):
+    dts = [("int64" if dt == "list-int" else (dt or "float64")) for dt in (dtypes or [None] * len(chunks))]
+    return ("import numpy as np\nfrom menpo.model import PCAVectorModel\nchunks = %r\ndtypes = %r\n"
+            "arr = [np.array(c, dtype=float).astype(dt) for c, dt in zip(chunks, dtypes)]\n"
+            "m = PCAVectorModel(arr[0].copy(), centre=%r)\n"
+            "for c in arr[1:]:\n    m.increment(c.copy())\n"
+            "b = PCAVectorModel(np.vstack(arr), centre=%r)\n"
             "print(m.n_samples, m.mean(), m.eigenvalues)\nprint(b.n_samples, b.mean(), b.eigenvalues)\n" % (
-                [c.tolist() for c in chunks], centred, centred))
+                [c.tolist() for c in chunks], dts, centred, centred))
 
 
-def certificate(ctx, inc, X, centred, site, rp):
+def certificate(ctx, inc, X, centred, site, rp, tol=1e-8):
     """against the definition, independent of batch `pca`: the returned factors are an orthonormal eigen-decomposition
     of the exact covariance of the stacked data, with rank-many components"""
     import numpy as np
     m_ex, C_ex, rank = exact_cov(X, centred)
     k = inc["U"].shape[0]
     Ci = inc["U"].T.dot(np.diag(inc["l"])).dot(inc["U"])
-    ok = ctx.check(arr_close(inc["U"].dot(inc["U"].T), np.eye(k), 1e-8), site, "not-orthonormal",
+    ok = ctx.check(arr_close(inc["U"].dot(inc["U"].T), np.eye(k), tol), site, "not-orthonormal",
                    "rows of the components after the increments are not orthonormal", rp)
-    ok &= ctx.check(arr_close(Ci, C_ex, 1e-8) and k == rank, site, "covariance",
+    ok &= ctx.check(arr_close(Ci, C_ex, tol) and k == rank, site, "covariance",
                     "U^T diag(l) U after the increments differs from the exact covariance of the stacked data by %.2e "
                     "(components %d, exact rank %d)" % (float(np.abs(Ci - C_ex).max()), k, rank), rp)
-    ok &= ctx.check(bool(np.all(np.diff(inc["l"]) <= 1e-9 * (1.0 + float(np.abs(inc["l"]).max() if k else 0.0)))), site,
+    ok &= ctx.check(bool(np.all(np.diff(inc["l"]) <= max(1e-9, tol / 10) * (1.0 + float(np.abs(inc["l"]).max() if k else 0.0)))), site,
                     "eigenvalues-not-descending", "eigenvalues after the increments are not in descending order: %r" %
                     inc["l"].tolist(), rp)
     return ok
 
 
-def pca_oracle(ctx, chunks, centred, backing, rp):
+def pca_oracle(ctx, chunks, centred, backing, rp, dtypes=None):
     """the property on the real code.  Returns the incremental state (or None when the call raised)."""
     import numpy as np
     site = SITE_PCA + ("/centred" if centred else "/uncentred")
+    tol, tol8 = case_tol(dtypes), case_tol(dtypes, 1e-8)
     try:
-        inc, bat = run_pca_impl(chunks, centred, backing)
+        inc, bat = run_pca_impl(chunks, centred, backing, dtypes=dtypes)
     except Exception as e:
         ctx.fail(site, "raises", "increment/build raised %s: %s" % (type(e).__name__, str(e)[:120]), rp)
         return None
@@ -571,7 +758,7 @@ def pca_oracle(ctx, chunks, centred, backing, rp):
     ok = True
     ok &= ctx.check(inc["n"] == bat["n"] == X.shape[0], site, "count",
                     "n_samples after the increments is %r, the batch model on the stacked data has %r" % (inc["n"], bat["n"]), rp)
-    if not (arr_close(inc["mean"], bat["mean"]) and arr_close(inc["mean"], m_ex)):
+    if not (arr_close(inc["mean"], bat["mean"], tol) and arr_close(inc["mean"], m_ex, tol)):
         # classify: was a running mean exactly zero before an increment of a centred model?
         lo, zero_before = 0, False
         for c in chunks[:-1]:
@@ -584,14 +771,14 @@ def pca_oracle(ctx, chunks, centred, backing, rp):
                      " (a centred model whose running mean was exactly zero is updated as if it were uncentred: "
                      "ipca tests np.all(m_a == 0) instead of the model's centred flag)" if stays else ""), rp)
         return inc
-    if inc["l"].shape != bat["l"].shape or not arr_close(inc["l"], bat["l"]):
+    if inc["l"].shape != bat["l"].shape or not arr_close(inc["l"], bat["l"], tol):
         ok = False
         ctx.fail(site, "eigenvalues", "eigenvalues after the increments %r, batch %r" % (inc["l"].tolist(), bat["l"].tolist()), rp)
     else:
         Pi, Pb = inc["U"].T.dot(inc["U"]), bat["U"].T.dot(bat["U"])
-        ok &= ctx.check(arr_close(Pi, Pb, 1e-7), site, "subspace",
+        ok &= ctx.check(arr_close(Pi, Pb, case_tol(dtypes, 1e-7) * (10 if has_single(dtypes) else 1)), site, "subspace",
                         "projector onto the principal subspace differs from the batch model's by %.2e" % float(np.abs(Pi - Pb).max()), rp)
-    certificate(ctx, inc, X, centred, site, rp)
+    certificate(ctx, inc, X, centred, site, rp, tol8)
     return inc
 
 
@@ -607,13 +794,13 @@ def zero_mean_prefix(chunks):
     return False
 
 
-def ipca_oracle(ctx, chunks, centred, centre_arg, rp):
+def ipca_oracle(ctx, chunks, centred, centre_arg, rp, dtypes=None):
     """menpo.math.ipca called directly.  With centre=None and an all-zero mean the documented convention is the
     uncentred update, so the batch comparison applies only when no running mean is all-zero (or centre is given)."""
     import numpy as np
     site = SITE_IPCA + ("/centred" if centred else "/uncentred")
     try:
-        inc = run_ipca_direct(chunks, centred, centre_arg)
+        inc = run_ipca_direct(chunks, centred, centre_arg, dtypes)
     except Exception as e:
         ctx.fail(site, "raises", "pca/ipca raised %s: %s" % (type(e).__name__, str(e)[:120]), rp)
         return None
@@ -623,9 +810,9 @@ def ipca_oracle(ctx, chunks, centred, centre_arg, rp):
         return inc
     m_ex, _, _ = exact_cov(X, centred)
     ctx.check(inc["n"] == X.shape[0], site, "count", "count %r" % inc["n"], rp)
-    if ctx.check(arr_close(inc["mean"], m_ex), site, "mean", "mean returned by ipca %r, mean of the stacked data %r" % (
-            inc["mean"].tolist(), m_ex.tolist()), rp):
-        certificate(ctx, inc, X, centred, site, rp)
+    if ctx.check(arr_close(inc["mean"], m_ex, case_tol(dtypes)), site, "mean",
+                 "mean returned by ipca %r, mean of the stacked data %r" % (inc["mean"].tolist(), m_ex.tolist()), rp):
+        certificate(ctx, inc, X, centred, site, rp, case_tol(dtypes, 1e-8))
     return inc
 
 
@@ -639,11 +826,13 @@ def gmrf_oracle(ctx, chunks, cfg, rp):
         ctx.fail(SITE_GMRF, "raises", "increment/build raised %s: %s" % (type(e).__name__, str(e)[:120]), rp)
         return None, None
     X = np.vstack(chunks)
+    dts = variant_dtypes(variant)
     ctx.check(inc["n"] == bat["n"] == X.shape[0], SITE_GMRF, "count",
               "n_samples after the increments is %r, the batch model has %r" % (inc["n"], bat["n"]), rp)
-    ctx.check(arr_close(inc["mean"], bat["mean"]) and arr_close(inc["mean"], X.mean(axis=0)), SITE_GMRF, "mean",
+    ctx.check(arr_close(inc["mean"], bat["mean"], case_tol(dts)) and arr_close(inc["mean"], X.mean(axis=0), case_tol(dts)),
+              SITE_GMRF, "mean",
               "mean after the increments %r, batch mean %r" % (inc["mean"].tolist(), bat["mean"].tolist()), rp)
-    ctx.check(arr_close(inc["P"], bat["P"], 1e-8), SITE_GMRF, "precision",
+    ctx.check(arr_close(inc["P"], bat["P"], case_tol(dts, 1e-8)), SITE_GMRF, "precision",
               "precision after the increments differs from the batch precision by %.3e (max entry %.3e)" % (
                   float(np.abs(inc["P"] - bat["P"]).max()) if inc["P"].shape == bat["P"].shape else float("nan"),
                   float(np.abs(bat["P"]).max())), rp)
@@ -705,13 +894,14 @@ class Run:
             mean = np.array([float(F(x)) for x in parts[1]])
             d = mean.shape[0]
             sq = np.array([float(F(x)) for x in parts[2]]).reshape(d, d)
+            tol, tol8 = extra.get("tol", TOL), extra.get("tol8", 1e-8)
             if n != inc["n"]:
                 self.ctx.mismatch(kind + ".count", "model %d vs implementation %r" % (n, inc["n"]), rp)
-            if not arr_close(inc["mean"], mean):
+            if not arr_close(inc["mean"], mean, tol):
                 self.ctx.mismatch(kind + ".mean", "model %r vs implementation %r" % (mean.tolist(), inc["mean"].tolist()), rp)
             if kind in ("pca", "ipca"):
                 Ci = inc["U"].T.dot(np.diag(inc["l"])).dot(inc["U"])
-                if not arr_close(Ci, sq, 1e-8):
+                if not arr_close(Ci, sq, tol8):
                     self.ctx.mismatch(kind + ".covariance", "U^T diag(l) U differs from the model covariance by %.2e" %
                                       float(np.abs(Ci - sq).max()), rp)
                 rank = int(parts[3][0])
@@ -731,49 +921,63 @@ class Run:
                                       "covariance by %.2e" % (rp.get("factors"), float(np.abs(Ci - sq).max())), rp)
             else:
                 Pm = sq if not extra.get("sparse") else np.array([float(F(x)) for x in parts[4]]).reshape(d, d)
-                if not arr_close(inc["P"], Pm, 1e-8):
+                if not arr_close(inc["P"], Pm, tol8):
                     self.ctx.mismatch("gmrf.precision", "implementation precision (%s storage) differs from the model's by "
                                       "%.2e" % ("sparse" if extra.get("sparse") else "dense", float(np.abs(inc["P"] - Pm).max())), rp)
                 bat = extra.get("bat")
-                if bat is not None and not arr_close(bat["P"], Pm, 1e-8):
+                if bat is not None and not arr_close(bat["P"], Pm, tol8):
                     self.ctx.mismatch("gmrf.batch-precision", "batch precision (%s storage) differs from the model's by "
                                       "%.2e" % ("sparse" if extra.get("sparse") else "dense", float(np.abs(bat["P"] - Pm).max())), rp)
                 covs = np.array([float(F(x)) for x in parts[3]])
-                if inc["covs"] is not None and not arr_close(inc["covs"].ravel(), covs, 1e-8):
+                if inc["covs"] is not None and not arr_close(inc["covs"].ravel(), covs, tol8):
                     self.ctx.mismatch("gmrf.covariances", "stored block covariances differ from the model's", rp)
 
 
-def pca_case(run, X, split, centred, backing, tag):
+def pca_case(run, X, split, centred, backing, tag, dtypes=None):
+    """dtypes: storage dtype of every chunk (None = all float64)"""
     ctx = run.ctx
     chunks = cut(X, split)
     rp = {"model": "PCA", "centred": centred, "backing": backing, "split": list(split), "data": X.tolist(),
-          "python": pca_python(chunks, centred, backing)}
-    ctx.case(("pca", X.tobytes(), split, centred, backing), nontrivial=len(split) >= 2 and X.shape[0] >= 3,
+          "python": pca_python(chunks, centred, backing, dtypes)}
+    if dtypes:
+        rp["dtypes"] = list(dtypes)
+    ctx.case(("pca", X.tobytes(), split, centred, backing, tuple(dtypes or ())), nontrivial=len(split) >= 2 and X.shape[0] >= 3,
              sample={"model": "PCA", "n": X.shape[0], "d": X.shape[1], "split": list(split), "centred": centred,
-                     "backing": backing})
+                     "backing": backing, "dtypes": list(dtypes or ())})
     ctx.count("pca:%s:%s:%s" % ("centred" if centred else "uncentred", backing,
                                 "n<=d" if X.shape[0] <= X.shape[1] else "n>d"))
     ctx.count("pca:%s" % tag)
     ctx.count("increments:%d" % (len(split) - 1))
-    inc = pca_oracle(ctx, chunks, centred, backing, rp)
-    if backing == "vector":
-        run.ask("pca %d spec %s" % (1 if centred else 0, wire_chunks(chunks)), "pca", inc, rp)
+    if dtypes:
+        ctx.count("pca:dtype:%s:initial=%s:increment=%s" % ("centred" if centred else "uncentred", dtypes[0],
+                                                           "+".join(sorted(set(dtypes[1:])))))
+    inc = pca_oracle(ctx, chunks, centred, backing, rp, dtypes)
+    ex = dict(tol=case_tol(dtypes), tol8=case_tol(dtypes, 1e-8))
+    if backing in ("vector", "vector-trimmed"):
+        run.ask("pca %d spec %s" % (1 if centred else 0, wire_chunks(chunks)), "pca", inc, rp, **ex)
     else:
-        run.ask("pcao %d 2 %s" % (1 if centred else 0, wire_clouds(chunks, 2)), "pca", inc, rp)
+        run.ask("pcao %d 2 %s" % (1 if centred else 0, wire_clouds(chunks, 2)), "pca", inc, rp, **ex)
 
 
-def ipca_case(run, X, split, centred, centre_arg, tag):
+def ipca_case(run, X, split, centred, centre_arg, tag, dtypes=None):
     """menpo.math.ipca as a public entry point of its own"""
     ctx = run.ctx
     chunks = cut(X, split)
     rp = {"model": "ipca", "centred": centred, "centre_arg": centre_arg, "split": list(split), "data": X.tolist()}
-    ctx.case(("ipca", X.tobytes(), split, centred, centre_arg), nontrivial=len(split) >= 2 and X.shape[0] >= 3)
+    if dtypes:
+        rp["dtypes"] = list(dtypes)
+    ctx.case(("ipca", X.tobytes(), split, centred, centre_arg, tuple(dtypes or ())),
+             nontrivial=len(split) >= 2 and X.shape[0] >= 3)
     ctx.count("ipca:%s:centre=%r" % ("centred" if centred else "uncentred", centre_arg))
     ctx.count("ipca:%s" % tag)
-    inc = ipca_oracle(ctx, chunks, centred, centre_arg, rp)
+    if dtypes:
+        ctx.count("ipca:dtype:%s:initial=%s:increment=%s" % ("centred" if centred else "uncentred", dtypes[0],
+                                                            "+".join(sorted(set(dtypes[1:])))))
+    inc = ipca_oracle(ctx, chunks, centred, centre_arg, rp, dtypes)
     # centre=None: the branch is inferred from the mean (`ipcaStepCoded`); centre given: the specified step
     variant = "coded" if centre_arg is None else "spec"
-    run.ask("pca %d %s %s" % (1 if centred else 0, variant, wire_chunks(chunks)), "ipca", inc, rp)
+    run.ask("pca %d %s %s" % (1 if centred else 0, variant, wire_chunks(chunks)), "ipca", inc, rp,
+            tol=case_tol(dtypes), tol8=case_tol(dtypes, 1e-8))
 
 
 def forget_case(run, X, split, centred, backing, factors, tag):
@@ -831,7 +1035,9 @@ def keep_case(run, ka, la, na, brows, f, eps, tag):
     inc = dict(l=np.array(l, dtype=float))
     # rows returned must be the axes of the kept eigenvalues (up to sign), in the same order
     q = lambda x: "%d/%d" % (F(x).numerator, F(x).denominator)
-    run.ask("keep %s %s %d %s" % (q(eff), q(nm1), len(s2), " ".join(q(x) for x in s2)),
+    # threshold as coded: max(eps, max(R.shape) * precision * max l); R is (ka + n_b) x (ka + q) with q = n_b here, the
+    # operands are double precision
+    run.ask("keep %s %s %d %s %d %s" % (q(eff), q(nm1), d, q(F(1, 2 ** 52)), len(s2), " ".join(q(x) for x in s2)),
             "keep", inc, rp)
     if U.shape[0] == len(l) and len(l) <= d:
         G = U.dot(U.T)
@@ -860,10 +1066,12 @@ def gmrf_case(run, X, split, cfg, tag):
     inc, bat = gmrf_oracle(ctx, chunks, cfg, rp)
     spec = "%d %s %d %d %d %s" % (bias, "c" if mode == "concatenation" else "s", nv, k, len(edges),
                                   " ".join("%d %d" % (a, b) for a, b in edges))
+    dts = variant_dtypes(variant)
+    ex = dict(sparse=sparse, bat=bat, tol=case_tol(dts), tol8=case_tol(dts, 1e-8))
     if backing == "vector":
-        run.ask("gmrf %s %s" % (spec, wire_chunks(chunks)), "gmrf", inc, rp, sparse=sparse, bat=bat)
+        run.ask("gmrf %s %s" % (spec, wire_chunks(chunks)), "gmrf", inc, rp, **ex)
     else:
-        run.ask("gmrfo %s %s" % (spec, wire_clouds(chunks, k)), "gmrf", inc, rp, sparse=sparse, bat=bat)
+        run.ask("gmrfo %s %s" % (spec, wire_clouds(chunks, k)), "gmrf", inc, rp, **ex)
 
 
 def pca_dataset(rng, n, d, centred, split_for_guard=None):
@@ -881,6 +1089,12 @@ RANK_DEF_Z = [[1.0, 0.0, 2.0], [3.0, 1.0, 0.0], [1.0, 0.0, 2.0], [2.0, 0.5, 1.0]
               [5.0, 2.0, 2.0]]
 
 
+def W8():
+    import numpy as np
+    return np.array([[1.0, 0.0, 0.5, 2.0], [0.0, 1.0, 0.0, 1.0], [2.0, -1.0, 0.0, 3.0], [1.0, 1.5, 0.0, 3.0],
+                     [0.0, 0.0, 1.0, 0.5], [1.0, 0.25, 0.0, 2.0], [3.0, 2.0, 1.0, 0.0], [0.5, 0.25, 2.0, 1.0]])
+
+
 def directed_pca(run):
     """fixed cases that are part of the quantifier and that random data never hit"""
     import numpy as np
@@ -894,6 +1108,10 @@ def directed_pca(run):
     pca_case(run, Y, (2, 1, 3), True, "vector", "zero-mean-after-increment")
     # the same data, uncentred: the zero test is the documented convention there
     pca_case(run, X, (4, 3), False, "vector", "zero-mean-uncentred")
+    # a model whose number of active components was lowered before the increments
+    for split in ((3, 2, 3), (4, 4), (2, 1, 1, 4)):
+        for centred in (True, False):
+            pca_case(run, W8(), split, centred, "vector-trimmed", "active-components-lowered-before-increment")
     # duplicates / rank-deficient increments, single-row increments, an increment equal to the running mean
     Z = np.array(RANK_DEF_Z)
     for split in ((2, 2, 3), (3, 1, 1, 1, 1), (2, 5), (6, 1)):
@@ -953,7 +1171,7 @@ def explore_pca(run, scale):
         n, d = rng.randint(8, 14), rng.randint(2, 12)
         centred = rng.random() < 0.6
         X = pca_dataset(rng, n, d, centred)
-        backing = "pointcloud" if d % 2 == 0 and rng.random() < 0.3 else "vector"
+        backing = "pointcloud" if d % 2 == 0 and rng.random() < 0.3 else rng.choice(["vector", "vector", "vector-trimmed"])
         for _ in range(2):
             pca_case(run, X, random_composition(rng, n, 2), centred, backing, "random-composition")
         ipca_case(run, X, random_composition(rng, n, 2), centred, rng.choice([None, centred]), "random-composition")
@@ -970,6 +1188,83 @@ def explore_pca(run, scale):
         forget_case(run, X, split, centred, backing, factors, "random-factors")
 
 
+def typed_dataset(rng, n, d, centred, single):
+    """values every storage dtype of the case holds exactly: small integers; when single precision takes part, small
+    magnitudes and a well separated spectrum, so that float32 rounding (relative 6e-8 per operation, squared singular
+    values of rounding noise included) stays orders of magnitude inside TOL32 and below ipca's absolute eps"""
+    import numpy as np
+    for _ in range(400):
+        kmax = 2 if single else 12
+        X = np.array([[float(rng.randint(-kmax, kmax)) for _ in range(d)] for _ in range(n)], dtype=float)
+        if pca_data_ok(X, tuple([2] + [1] * (n - 2)), centred, 0.05 if single else 1e-3):
+            return X
+    raise common.Infra("generator: no well-conditioned integer PCA data set found")
+
+
+def explore_pca_dtypes(run, scale):
+    """storage dtypes (DESIGN 14.4 'storage dtypes'): initial batch and increments held as float64 / int64 / int32 /
+    float32 arrays or as a list of int arrays, every ordered pair in every run, centred and uncentred, vector and
+    PointCloud backed, through the model classes and through menpo.math.ipca itself"""
+    rng = run.ctx.rng
+    for centred in (True, False):
+        for dt0 in DTYPES[:4]:
+            for dt1 in DTYPES:
+                single = "float32" in (dt0, dt1)
+                for rep in range(scale):
+                    n, d = rng.randint(5, 9), rng.randint(2, 5 if single else 7)
+                    X = typed_dataset(rng, n, d, centred, single)
+                    split = random_composition(rng, n, 2)
+                    while len(split) > 4:
+                        split = random_composition(rng, n, 2)
+                    if rep % 3 == 2 and not single:
+                        # every increment with a dtype of its own
+                        dts = [dt0] + [rng.choice(["float64", "int64", "int32", "list-int"]) for _ in split[1:]]
+                    else:
+                        dts = [dt0] + [dt1] * (len(split) - 1)
+                    pca_case(run, X, split, centred, "vector", "storage-dtypes", dts)
+                    if rep == 0:
+                        pca_case(run, X, (2, n - 2), centred, "vector", "storage-dtypes", [dt0, dt1])
+                    if dt1 != "list-int":
+                        if d % 2 == 0:
+                            pca_case(run, X, split, centred, "pointcloud", "storage-dtypes", dts)
+                        if rep == 0:
+                            ipca_case(run, X, split, centred, rng.choice([None, centred]), "storage-dtypes",
+                                      [dt0] + [dt1] * (len(split) - 1))
+
+
+GMRF_DTYPE_PAIRS = [("float64", "int64"), ("int64", "int64"), ("int64", "float64"), ("int32", "int64"),
+                    ("float64", "float32"), ("float32", "float32"), ("float32", "int64"), ("float64", "list-int")]
+
+
+def explore_gmrf_dtypes(run, scale):
+    """GMRF increments whose samples are stored as integers / single precision / a list of int arrays, vector and
+    PointCloud backed, both storages: every dtype pair in every run on a rotating choice of graph configurations"""
+    rng = run.ctx.rng
+    cfgs = gmrf_configs()
+    rng.shuffle(cfgs)
+    i = 0
+    for rnd in range(scale):
+        for dt0, dt1 in GMRF_DTYPE_PAIRS:
+            for backing in ("vector", "pointcloud"):
+                if backing == "pointcloud" and dt1 == "list-int":
+                    continue
+                kind, mode, sparse, bias = cfgs[i % len(cfgs)]
+                i += 1
+                nv = rng.randint(3, 4)
+                k = rng.choice([2, 3]) if backing == "pointcloud" else rng.choice([1, 2, 3])
+                edges = [[int(a), int(b)] for a, b in build_graph(kind, make_graph(rng, kind, nv), nv).edges.tolist()]
+                p = k if (not edges or mode == "subtraction") else 2 * k
+                single = "float32" in (dt0, dt1)
+                # single precision: more samples in the initial batch and a tight bound on the conditioning of every
+                # block, so that float32 rounding (6e-8 relative, amplified by the block inverses) stays far inside TOL32
+                n0 = p + (5 if single else 2)
+                n = n0 + rng.randint(2, 4)
+                X = gmrf_dataset(rng, n, n0, nv, k, edges, mode, bias, True, 4 if single else 12, 40.0 if single else None)
+                cfg = (kind, edges, nv, k, mode, sparse, bias, backing, "%s>%s" % (dt0, dt1))
+                gmrf_case(run, X, random_composition(rng, n, n0), cfg, "storage-dtypes")
+                gmrf_case(run, X, (n0, n - n0), cfg, "storage-dtypes")
+
+
 def gmrf_configs():
     out = []
     for kind in ("edgeless", "chain", "cycle", "tree", "Tree", "twoway-chain", "twoway-cycle", "chain-isolated"):
@@ -980,14 +1275,14 @@ def gmrf_configs():
     return out
 
 
-def gmrf_dataset(rng, n, n0, nv, k, edges, mode, bias, integer):
+def gmrf_dataset(rng, n, n0, nv, k, edges, mode, bias, integer, kmax=12, cond=None):
     import numpy as np
-    for _ in range(300):
+    for _ in range(3000 if cond else 300):
         if integer:
-            X = np.array([[float(rng.randint(-12, 12)) for _ in range(nv * k)] for _ in range(n)])
+            X = np.array([[float(rng.randint(-kmax, kmax)) for _ in range(nv * k)] for _ in range(n)])
         else:
             X = dyadic_matrix(rng, n, nv * k, 16, 2)
-        if gmrf_data_ok(X, tuple([n0] + [1] * (n - n0)), edges, mode, k, nv, bias):
+        if gmrf_data_ok(X, tuple([n0] + [1] * (n - n0)), edges, mode, k, nv, bias, cond):
             return X
     raise common.Infra("generator: no well-conditioned GMRF data set found")
 
@@ -1035,9 +1330,9 @@ def case_from_replay(run, rp, tag):
     X = np.array(rp["data"], dtype=float)
     split = tuple(rp["split"])
     if rp.get("model") == "PCA":
-        pca_case(run, X, split, bool(rp["centred"]), rp.get("backing", "vector"), tag)
+        pca_case(run, X, split, bool(rp["centred"]), rp.get("backing", "vector"), tag, rp.get("dtypes"))
     elif rp.get("model") == "ipca":
-        ipca_case(run, X, split, bool(rp["centred"]), rp.get("centre_arg"), tag)
+        ipca_case(run, X, split, bool(rp["centred"]), rp.get("centre_arg"), tag, rp.get("dtypes"))
     elif rp.get("model") == "PCA-forget":
         forget_case(run, X, split, bool(rp["centred"]), rp.get("backing", "vector"), [F(f) for f in rp["factors"]], tag)
     else:
@@ -1058,18 +1353,10 @@ def directed_mixed_dtype(run):
     """object-level models whose first sample is an integer-typed PointCloud followed by float samples.  as_matrix
     allocates the data matrix with the dtype of the first sample and silently truncates the later ones, differently
     for the batch model (everything truncated) and the incremental one (only chunks whose first sample is
-    integer-typed): reported with a patch (notes/fixes/C11-as-matrix-template-dtype.diff).  The cases run as soon as
-    as_matrix widens; until then they are skipped and counted."""
+    integer-typed): found by this check, repaired in /repo 8a6024e (as_matrix widens the matrix).  The cases run on
+    every check: should the truncation come back it is a violation."""
     import numpy as np
     ctx = run.ctx
-    if not as_matrix_widens():
-        ctx.count("skipped:as_matrix-truncates-to-first-sample-dtype")
-        ctx.notes["as_matrix_template_dtype"] = (
-            "menpo.math.as_matrix allocates the data matrix with the dtype of the first sample: a GMRFModel whose first "
-            "sample is an integer-typed PointCloud truncates the float samples that follow (batch: all of them; "
-            "incremental: only those of the first chunk), so incremental != batch on such input; proposed repair "
-            "notes/fixes/C11-as-matrix-template-dtype.diff; the mixed-dtype cases are skipped until it is applied")
-        return
     rng = common.random.Random(1100 + ctx.seed)
     for kind, mode, sparse in (("chain", "concatenation", True), ("cycle", "subtraction", False), ("edgeless", "concatenation", True)):
         nv, k = 3, 2
@@ -1086,6 +1373,70 @@ def directed_mixed_dtype(run):
         cfg = (kind, edges, nv, k, mode, sparse, 0, "pointcloud", "int-template")
         for split in ((n0, 3), (n0 + 1, 1, 1)):
             gmrf_case(run, X, split, cfg, "integer-typed-first-sample")
+    # the same for PCAModel: an initial batch of integer-typed point clouds, then float samples with fractional parts
+    # (batch model: the template of as_matrix is integer-typed and everything after it is float)
+    for centred in (True, False):
+        for _ in range(300):
+            X = dyadic_matrix(rng, 7, 4, 16, 2)
+            X[:3] = np.round(X[:3])
+            if pca_data_ok(X, (2, 1, 1, 1, 1, 1), centred):
+                break
+        else:
+            raise common.Infra("generator: no well-conditioned PCA data set found")
+        for split in ((3, 4), (3, 2, 2)):
+            pca_case(run, X, split, centred, "pointcloud", "integer-typed-first-batch",
+                     ["int64"] + ["float64"] * (len(split) - 1))
+
+
+def ipca_single_precision_noise():
+    """does an increment on single precision data of pixel magnitude keep a rounding-noise eigenpair?  `ipca` discards
+    with the absolute `l > eps` (1e-10); the exactly-zero singular value of R comes out of a float32 computation as
+    ~1e-6 * largest, i.e. an eigenvalue far above eps (the batch routine was repaired for the same reason,
+    /repo 62dd167).  Returns a description of the first witness, or None."""
+    import numpy as np
+    from menpo.model import PCAVectorModel
+    rs = np.random.RandomState(3)
+    for _ in range(60):
+        n, d = rs.randint(5, 10), rs.randint(2, 9)
+        X = rs.randint(-255, 256, size=(n, d)).astype(np.float64)
+        for centred in (True, False):
+            try:
+                m = PCAVectorModel(X[:3].astype(np.float32), centre=centred)
+                m.increment(X[3:].astype(np.float32))
+                b = PCAVectorModel(X.copy(), centre=centred)
+            except Exception:      # noqa: BLE001 - the typed cases report it
+                return None
+            if m.n_components > b.n_components:
+                return ("%d float32 samples of dimension %d (integers in [-255, 255], centre=%r, initial batch of 3 + one "
+                        "increment): %d components, smallest eigenvalue %.3g, the batch model has %d" % (
+                            n, d, centred, m.n_components, float(m.eigenvalues[-1]), b.n_components))
+    return None
+
+
+def directed_single_precision(run):
+    """single precision data of pixel magnitude (the magnitude the typed cases of every run avoid on purpose).  Before
+    /repo db6ef6e (notes/fixes/C11-ipca-single-precision-noise.diff, found by this check) `ipca` kept rounding-noise
+    eigenpairs there (more components than the batch model, even more than dimensions)."""
+    ctx = run.ctx
+    w = ipca_single_precision_noise()
+    if w is not None:
+        # repaired in /repo db6ef6e; should it come back the cases below report it with their own replays, the probe
+        # only adds the smallest witness to the evidence
+        ctx.notes["ipca_single_precision_noise"] = "menpo.math.ipca keeps rounding-noise eigenpairs of single precision data: " + w
+    import numpy as np
+    rng = common.random.Random(1200 + ctx.seed)
+    for centred in (True, False):
+        for rep in range(4):
+            n, d = rng.randint(5, 9), rng.randint(2, 6)
+            for _ in range(400):
+                X = np.array([[float(rng.randint(-255, 255)) for _ in range(d)] for _ in range(n)], dtype=float)
+                if pca_data_ok(X, tuple([2] + [1] * (n - 2)), centred, 0.05):
+                    break
+            else:
+                raise common.Infra("generator: no well-conditioned pixel-magnitude data set found")
+            split = random_composition(rng, n, 2)
+            pca_case(run, X, split, centred, "vector", "single-precision-pixel-magnitude",
+                     [rng.choice(["float32", "float64"])] + ["float32"] * (len(split) - 1))
 
 
 def explore(run, scale):
@@ -1093,6 +1444,9 @@ def explore(run, scale):
     directed_pca(run)
     directed_keep(run)
     directed_mixed_dtype(run)
+    directed_single_precision(run)
+    explore_pca_dtypes(run, scale)
+    explore_gmrf_dtypes(run, scale)
     explore_pca(run, scale)
     explore_gmrf(run, scale)
 
@@ -1108,15 +1462,19 @@ def search(ctx):
 
 def run(ctx):
     gen_ok = generated(ctx)
-    if gen_ok:
-        common.prepare_lean(ctx, PROP, IMPORTS + [GEN_IMPORT], THEOREMS + GEN_THEOREMS,
-                            targets=["MenpoModel.Props.C11", "MenpoModel.Drive.C11", GEN_IMPORT])
-    else:
-        # a regenerated obligation no longer checks: audit what still builds, then let the oracle search
-        common.prepare_lean(ctx, PROP, IMPORTS, THEOREMS)
+    src_ok = generated_src(ctx)
+    # a regenerated obligation that no longer checks: audit what still builds, then let the oracle search
+    imports = IMPORTS + ([GEN_IMPORT] if gen_ok else []) + ([SRC_IMPORT] if src_ok else [])
+    theorems = THEOREMS + (GEN_THEOREMS if gen_ok else []) + (SRC_THEOREMS if src_ok else [])
+    common.prepare_lean(ctx, PROP, imports, theorems,
+                        targets=["MenpoModel.Props.C11", "MenpoModel.Props.C11Src", "MenpoModel.Props.C11SrcPca",
+                                 "MenpoModel.Drive.C11"] + imports[3:])
     ctx.trusted += ["contract parameters: np.linalg.qr/svd/inv, np.sqrt, np.cov, np.mean (certificate-checked per case); "
                     "scipy.sparse.bsr_matrix sums duplicate blocks (checked by the correspondence on two-way graphs)",
-                    "table extraction: inspect.signature / ast of PCAVectorModel.increment / wrapped GMRF routines"]
+                    "table extraction: inspect.signature / ast of PCAVectorModel.increment / wrapped GMRF routines",
+                    "the source-to-Lean translator harness/py2lean2.py + harness/py2lean2numpy.py and the C11 vocabulary "
+                    "harness/trans_c11.py (which numpy expression stands for which operation of Core/C11Src.lean `NP`; "
+                    "arrays are exact rationals with shapes, dtypes are dropped except for `lib.precision`)"]
     r = Run(ctx)
     explore(r, ctx.n(1, 12))
     r.settle()
